@@ -10,7 +10,7 @@ claim("C01",
       "DESIGN.md section 4, C01")
 claim("C10",
       "same input population as C01 against an xor-of-results oracle and an independent shape predicate",
-      "For every enumerated / generated input: Parse returns exactly one of (tree, error); accepted trees pass expr.Validate and the harness's own recursive shape predicate (which also enters range boundaries and list elements); ToPostgres returns non-empty SQL xor an error; parameterized SQL is empty on error; both renderers report Parse's error whenever Parse fails.",
+      "For every enumerated / generated input: Parse returns exactly one of (tree, error); accepted trees pass expr.Validate and the harness's own recursive shape predicate (which also enters range boundaries and list elements); ToPostgres returns non-empty SQL xor an error; parameterized SQL is empty on error; both renderers fail whenever Parse fails.",
       "The shape predicate is the harness's reading of the property text (trusted base). Trees built by hand through the constructors are out of scope.",
       "DESIGN.md section 4, C10")
 claim("C05",
